@@ -131,14 +131,21 @@ def ascending_view(c, X, Y):
 
 @contract
 class IntegrateSubset(Contract):
-    """integrate_subset(x, y, xmin, xmax) = exact integral of the piecewise-linear function
-    between the two limits (in either order), for x stored in either order.
-    BOUNDED: this contract is assumed at call sites (Filter.rebin) and checked on the real
-    function by enumeration/random runs only (rtc.conv_props.c06_subset) -- the reindexing
-    argument (sub-grid sum = clipped sum over all segments) is not mechanised."""
+    """integrate_subset(x, y, xmin, xmax), for x stored in either order and the limits in either order.
+    PROVED on the real body (all table lengths): equal limits give 0; otherwise the function hands to
+    integrate() the grid  lo, every tabulated x strictly between lo and hi (all of them, in order, nothing else),
+    hi  with the tabulated y at the interior nodes and, at both ends, the value of the straight line of every
+    tabulated segment containing the end; the result is integrate() of that grid = its trapezium sum.
+    ASSUMED (M1, calculus): the trapezium sum over a grid that contains every breakpoint of a piecewise-linear
+    function between lo and hi is its exact integral -- which is what callers are given (`result`)."""
     name = UTIL + 'integrate.integrate_subset'
     properties = ('C06',)
-    trusted = 'bounded'
+    variants = ('table',)
+
+    def setup(self, c, variant):
+        n = c.int('n')
+        c.assume(n >= 2)
+        return dict(x=c.array('x', (n,)), y=c.array('y', (n,)), xmin=c.real('xmin'), xmax=c.real('xmax'))
 
     def requires(self, c, a):
         X, Y = c.A(a.x), c.A(a.y)
@@ -153,8 +160,40 @@ class IntegrateSubset(Contract):
         XA, YA = ascending_view(c, X, Y)
         return pl_integral_spec(c, XA, YA, smin(a.xmin, a.xmax), smax(a.xmin, a.xmax))
 
-    def ensures(self, c, a, result, old):
+    def apply_ensures(self, c, a, result, old):
         return {}
+
+    def ensures(self, c, a, result, old):
+        if c.mode != 'verify':
+            return {}
+        X, Y = old.A(a.x), old.A(a.y)
+        n = X.n
+        XA, YA = ascending_view(old, X, Y)
+        lo, hi = smin(a.xmin, a.xmax), smax(a.xmin, a.xmax)
+        calls = [e for e in c.st.events if e[0] == 'call' and e[1] == UTIL + 'integrate.integrate']
+        rets = [e for e in c.st.events if e[0] == 'ret' and e[1] == UTIL + 'integrate.integrate']
+        if not calls:
+            return {'equal_limits_give_zero': band(a.xmin == a.xmax, compare('==', result, 0))}
+        xs, ys = c.A(calls[0][2]['x']), c.A(calls[0][2]['y'])
+        L = xs.n
+        line = lambda k, v: YA[k] + (v - XA[k]) * (YA[k + 1] - YA[k]) / (XA[k + 1] - XA[k])
+        # position of tabulated node k in the sub-grid: the nodes strictly inside keep their order, so node k sits at
+        # 1 + (number of nodes <= lo ... ) -- expressed through the first interior node j0 (witness: the code's i1)
+        j0 = c.witness_scalar('i1')
+        j1 = c.witness_scalar('i2')
+        s_lo = ite(lo == XA[0], 0, j0 - 1)
+        s_hi = ite(hi == XA[n - 1], n - 2, j1 - 1)
+        return {'limits_differ': bnot(a.xmin == a.xmax),
+                'result_is_integrate_of_the_sub_grid': len(calls) == 1 and len(rets) == 1 and (result is rets[0][2] or compare('==', result, rets[0][2])),
+                'same_length': compare('==', xs.n, ys.n),
+                'ends_are_the_limits': band(L >= 2, band(xs[0] == lo, xs[L - 1] == hi)),
+                'interior_is_sound': c.forall(L, lambda t: implies(band(t >= 1, t < L - 1),
+                                                                   c.and_(j0 + t - 1 >= 0, j0 + t - 1 < n, xs[t] == XA[j0 + t - 1], ys[t] == YA[j0 + t - 1], lo <= xs[t], xs[t] < hi)), 'sound'),
+                'interior_is_complete': c.forall(n, lambda k: implies(band(lo < XA[k], XA[k] < hi), c.and_(k - j0 + 1 >= 1, k - j0 + 1 < L - 1)), 'complete'),
+                # ... on a tabulated segment containing the end (the code's own choice of segment is the witness; that every
+                # containing segment gives the same value is continuity of the piecewise-linear function, part of M1)
+                'end_values_are_the_interpolants': [band(c.and_(s_lo >= 0, s_lo < n - 1, XA[s_lo] <= lo, lo <= XA[s_lo + 1]), ys[0] == line(s_lo, lo)),
+                                                    band(c.and_(s_hi >= 0, s_hi < n - 1, XA[s_hi] <= hi, hi <= XA[s_hi + 1]), ys[L - 1] == line(s_hi, hi))]}
 
 
 def make_filter(c, prefix='flt'):
